@@ -12,6 +12,7 @@ CONSTANTS Kinds,        \* subset of {"vec", "stride", "list", "opt"}
           AlphaSel,     \* "full" | "small" | "big"
           MaxOps,       \* bound on the history length
           MaxGhost,     \* bound on content-invisible ops (reserve, copy) per history
+          ExtendOn,     \* TRUE: include extend(batch) actions
           Emit          \* TRUE: print one EDGE line per transition
 
 IC == INSTANCE IndexContainers WITH Zero <- WZero, Mul <- WMulSmall, Fits32 <- WFitsU32
@@ -83,7 +84,7 @@ Invisible(o) ==
 
 Next == /\ Len(path) < MaxOps
         /\ \/ \E x \in Alphabet : Push(x)
-           \/ \E xs \in ExtendBatches : Extend(xs)
+           \/ ExtendOn /\ \E xs \in ExtendBatches : Extend(xs)
            \/ Clear
            \/ \E o \in {"reserve", "clone", "clone_from", "serde"} : Invisible(o)
 
